@@ -19,7 +19,7 @@
      C20_commit_on_top     commit on top of sim artifacts: same node, same recorded checksum
 
    No axioms; every theorem is followed by Print Assumptions. *)
-From Coq Require Import NArith List Bool Lia PeanoNat.
+From Coq Require Import String NArith List Bool Lia PeanoNat.
 From DudV Require Import Base.Bytes Base.JsonStr Base.Json Model.Fs Model.Cache.
 From DudV Require Import Proofs.CacheDefs Proofs.ManifestRT.
 Import ListNotations.
@@ -682,3 +682,475 @@ Print Assumptions C20_status_equal.
 Print Assumptions C20_st_cm_equal.
 Print Assumptions C20_status_ok_iff.
 Print Assumptions C20_status_short_equal.
+
+(* ------------------------------------------------------------------------------------------ *)
+(* 6a. the manifest a commit starts from                                                       *)
+(* ------------------------------------------------------------------------------------------ *)
+
+Definition contents_rel (R : artifact -> artifact -> Prop) (r1 r2 : res (list (bytes * artifact))) : Prop :=
+  match r1, r2 with
+  | Ok l1, Ok l2 => kids_rel R l1 l2
+  | Err, Err => True
+  | _, _ => False
+  end.
+
+Section SimOld.
+  Variables c1 c2 : cache.
+
+  Theorem C20_old_contents f a1 a2 :
+    a_isdir a1 = true -> sim_art c1 c2 (S f) a1 a2 ->
+    contents_rel (sim_art c1 c2 f) (old_contents a1 c1) (old_contents a2 c2).
+  Proof.
+    intros Hdir Hs. rewrite sim_art_S in Hs. destruct Hs as (_ & Hhas & Hrest). rewrite Hdir in Hrest.
+    unfold old_contents. rewrite <- Hhas. destruct (has_cs (a_cs a1)); [|constructor].
+    specialize (Hrest eq_refl). unfold man_rel in Hrest.
+    destruct (cget c1 (a_cs a1)) as [o1|], (cget c2 (a_cs a2)) as [o2|];
+      try (exfalso; exact Hrest); [|constructor].
+    destruct (dec_manifest (o_data o1)) as [m1|], (dec_manifest (o_data o2)) as [m2|];
+      try (exfalso; exact Hrest); [|exact I].
+    exact (proj2 Hrest).
+  Qed.
+
+  (* the child artifact commit reuses for a workspace entry: related on both sides *)
+  Corollary C20_old_child f a1 a2 l1 l2 name isd :
+    a_isdir a1 = true -> sim_art c1 c2 (S (S f)) a1 a2 ->
+    old_contents a1 c1 = Ok l1 -> old_contents a2 c2 = Ok l2 ->
+    sim_art c1 c2 (S f)
+      (match alookup name l1 with
+       | Some oa => if Bool.eqb (a_isdir oa) isd then oa else fresh_art name isd
+       | None => fresh_art name isd end)
+      (match alookup name l2 with
+       | Some oa => if Bool.eqb (a_isdir oa) isd then oa else fresh_art name isd
+       | None => fresh_art name isd end).
+  Proof.
+    intros Hdir Hs E1 E2. pose proof (C20_old_contents (S f) a1 a2 Hdir Hs) as Hc.
+    rewrite E1, E2 in Hc. unfold contents_rel in Hc.
+    pose proof (kids_rel_alookup _ l1 l2 name Hc) as Hl.
+    destruct (alookup name l1) as [x|], (alookup name l2) as [y|]; try (exfalso; exact Hl).
+    - pose proof Hl as Hl0. rewrite sim_art_S in Hl0. destruct Hl0 as ((_ & Hd & _) & _).
+      rewrite <- Hd. destruct (Bool.eqb (a_isdir x) isd); [exact Hl | apply sim_fresh].
+    - apply sim_fresh.
+  Qed.
+End SimOld.
+
+Print Assumptions C20_old_contents.
+Print Assumptions C20_old_child.
+
+(* ------------------------------------------------------------------------------------------ *)
+(* 5. push / fetch: the objects reachable from an artifact                                     *)
+(* ------------------------------------------------------------------------------------------ *)
+
+(* src/cache/push.go gatherFilesToPush: skip-cache artifacts contribute nothing; an artifact
+   without a checksum or whose object is missing is an error; a directory contributes its
+   manifest object and, recursively, its children.  The result separates the keys of FILE
+   objects (in visiting order) from the NUMBER of manifest objects: the manifest keys are what
+   differs between the two caches.  (Fetch walks the same graph, level by level.) *)
+Definition ga_go (F : artifact -> res (list bytes * nat)) :=
+  fix go (kids : list (bytes * artifact)) : res (list bytes * nat) :=
+    match kids with
+    | [] => Ok ([], O)
+    | (_, ch) :: r =>
+      match F ch, go r with
+      | Ok (fs, n), Ok (fs', n') => Ok (fs ++ fs', (n + n')%nat)
+      | _, _ => Err
+      end
+    end.
+
+Fixpoint gather (fuel : nat) (a : artifact) (c : cache) : res (list bytes * nat) :=
+  match fuel with
+  | O => Err
+  | S f =>
+    if a_skip a then Ok ([], O)
+    else if negb (has_cs (a_cs a)) then Err
+    else match cget c (a_cs a) with
+         | None => Err
+         | Some o =>
+           if a_isdir a then
+             match dec_manifest (o_data o) with
+             | None => Err
+             | Some m =>
+               match ga_go (fun ch => gather f ch c) (m_contents m) with
+               | Ok (fs, n) => Ok (fs, S n)
+               | Err => Err
+               end
+             end
+           else Ok ([a_cs a], O)
+         end
+  end.
+
+Definition reach_files (fuel : nat) (a : artifact) (c : cache) : res (list bytes) :=
+  match gather fuel a c with Ok (fs, _) => Ok fs | Err => Err end.
+Definition reach_manifests (fuel : nat) (a : artifact) (c : cache) : res nat :=
+  match gather fuel a c with Ok (_, n) => Ok n | Err => Err end.
+
+Section SimGather.
+  Variables c1 c2 : cache.
+
+  Lemma ga_go_sim (R : artifact -> artifact -> Prop) F1 F2 :
+    (forall x y, R x y -> F1 x = F2 y) ->
+    forall l1 l2, kids_rel R l1 l2 -> ga_go F1 l1 = ga_go F2 l2.
+  Proof.
+    intros HF l1 l2 Hk. induction Hk as [|[k1 x] [k2 y] l l' [Hxy Hr] Hk IH];
+      cbn [ga_go]; [reflexivity|].
+    cbn [fst snd] in Hxy, Hr. rewrite (HF x y Hr), IH. reflexivity.
+  Qed.
+
+  Theorem C20_gather_equal fuel : forall a1 a2,
+    sim_art c1 c2 fuel a1 a2 -> gather fuel a1 c1 = gather fuel a2 c2.
+  Proof.
+    induction fuel as [|f IH]; intros a1 a2 Hs; [reflexivity|].
+    rewrite sim_art_S in Hs. destruct Hs as ((Hp & Hd & Hn & Hk) & Hhas & Hrest).
+    cbn [gather]. rewrite <- Hk, <- Hhas, <- Hd.
+    destruct (a_skip a1); [reflexivity|].
+    destruct (has_cs (a_cs a1)); cbn [negb]; [|reflexivity].
+    destruct (a_isdir a1).
+    - specialize (Hrest eq_refl). unfold man_rel in Hrest.
+      destruct (cget c1 (a_cs a1)) as [o1|], (cget c2 (a_cs a2)) as [o2|];
+        try (exfalso; exact Hrest); [|reflexivity].
+      destruct (dec_manifest (o_data o1)) as [m1|], (dec_manifest (o_data o2)) as [m2|];
+        try (exfalso; exact Hrest); [|reflexivity].
+      destruct Hrest as [_ Hkids].
+      rewrite (ga_go_sim (sim_art c1 c2 f) _ (fun ch => gather f ch c2) (fun x y Hxy => IH x y Hxy) _ _ Hkids).
+      reflexivity.
+    - destruct Hrest as [Hcs Hc]. rewrite (Hc eq_refl), <- Hcs. reflexivity.
+  Qed.
+
+  Corollary C20_reach_files_equal fuel a1 a2 :
+    sim_art c1 c2 fuel a1 a2 -> reach_files fuel a1 c1 = reach_files fuel a2 c2.
+  Proof. intros Hs. unfold reach_files. rewrite (C20_gather_equal fuel a1 a2 Hs). reflexivity. Qed.
+
+  Corollary C20_reach_manifests_equal fuel a1 a2 :
+    sim_art c1 c2 fuel a1 a2 -> reach_manifests fuel a1 c1 = reach_manifests fuel a2 c2.
+  Proof. intros Hs. unfold reach_manifests. rewrite (C20_gather_equal fuel a1 a2 Hs). reflexivity. Qed.
+End SimGather.
+
+Print Assumptions C20_gather_equal.
+Print Assumptions C20_reach_files_equal.
+Print Assumptions C20_reach_manifests_equal.
+
+(* ------------------------------------------------------------------------------------------ *)
+(* 7. rewriting manifests in the old schema establishes the simulation                         *)
+(* ------------------------------------------------------------------------------------------ *)
+
+(* the bytes of a manifest in either schema *)
+Definition enc_as (old : bool) (m : manifest) : bytes :=
+  if old then enc_manifest_old m else enc_manifest m.
+
+Lemma dec_enc_as old m : ManifestRT.wf_manifest m = true -> dec_manifest (enc_as old m) = Some m.
+Proof. destruct old; [apply dec_enc_manifest_old | apply dec_enc_manifest]. Qed.
+
+Section Rewrite.
+  Variables c1 c2 : cache.
+
+  (* One step.  In c1 the key k1 holds a manifest m (either schema); in c2 the key k2 holds m',
+     which is m with the checksums of some directory children replaced by sim-equivalent ones
+     (same path, same keys), written in either schema - in particular m in the current and m'
+     in the old one.  Then the artifacts pointing at k1 and k2 are related. *)
+  Theorem C20_rewrite_sim f k1 k2 o1 o2 m m' old1 old2 p nr sk :
+    cget c1 k1 = Some o1 -> o_data o1 = enc_as old1 m -> ManifestRT.wf_manifest m = true ->
+    cget c2 k2 = Some o2 -> o_data o2 = enc_as old2 m' -> ManifestRT.wf_manifest m' = true ->
+    has_cs k1 = has_cs k2 ->
+    m_path m = m_path m' ->
+    kids_rel (sim_art c1 c2 f) (m_contents m) (m_contents m') ->
+    sim_art c1 c2 (S f) (mkArt k1 p true nr sk) (mkArt k2 p true nr sk).
+  Proof.
+    intros E1 D1 W1 E2 D2 W2 Hh Hp Hk. rewrite sim_art_S. cbn [a_cs a_path a_isdir a_norec a_skip].
+    split; [repeat split|]. split; [exact Hh|]. intros _.
+    rewrite E1, E2. unfold man_rel. rewrite D1, D2, (dec_enc_as old1 m W1), (dec_enc_as old2 m' W2).
+    split; [exact Hp | exact Hk].
+  Qed.
+
+  (* the instance of the property: current format on the left, old format on the right *)
+  Corollary C20_rewrite_sim_old f k1 k2 o1 o2 m m' p nr sk :
+    cget c1 k1 = Some o1 -> o_data o1 = enc_manifest m -> ManifestRT.wf_manifest m = true ->
+    cget c2 k2 = Some o2 -> o_data o2 = enc_manifest_old m' -> ManifestRT.wf_manifest m' = true ->
+    has_cs k1 = has_cs k2 ->
+    m_path m = m_path m' ->
+    kids_rel (sim_art c1 c2 f) (m_contents m) (m_contents m') ->
+    sim_art c1 c2 (S f) (mkArt k1 p true nr sk) (mkArt k2 p true nr sk).
+  Proof.
+    intros E1 D1 W1 E2 D2 W2. exact (C20_rewrite_sim f k1 k2 o1 o2 m m' false true p nr sk E1 D1 W1 E2 D2 W2).
+  Qed.
+
+  (* The closure over a whole tree.  [rw_art d a1 a2]: (c2, a2) is (c1, a1) with the manifests of
+     ANY SUBSET of its (sub)directories written in the other schema, d levels deep:
+     - file artifacts are the same and the caches agree on their key;
+     - a directory artifact is absent on both sides, or its manifest m1 in c1 (schema old1) and
+       m2 in c2 (schema old2) have the same path and keys and pairwise rewritten children. *)
+  Fixpoint rw_art (d : nat) (a1 a2 : artifact) : Prop :=
+    same_shape a1 a2 /\ has_cs (a_cs a1) = has_cs (a_cs a2) /\
+    if a_isdir a1 then
+      has_cs (a_cs a1) = true ->
+      (cget c1 (a_cs a1) = None /\ cget c2 (a_cs a2) = None) \/
+      match d with
+      | O => False
+      | S d' =>
+        exists o1 o2 m1 m2 old1 old2,
+          cget c1 (a_cs a1) = Some o1 /\ o_data o1 = enc_as old1 m1 /\ ManifestRT.wf_manifest m1 = true /\
+          cget c2 (a_cs a2) = Some o2 /\ o_data o2 = enc_as old2 m2 /\ ManifestRT.wf_manifest m2 = true /\
+          m_path m1 = m_path m2 /\ kids_rel (rw_art d') (m_contents m1) (m_contents m2)
+      end
+    else a_cs a1 = a_cs a2 /\ (has_cs (a_cs a1) = true -> cget c1 (a_cs a1) = cget c2 (a_cs a2)).
+
+  Theorem C20_rw_sim d : forall a1 a2, rw_art d a1 a2 -> forall fuel, sim_art c1 c2 fuel a1 a2.
+  Proof.
+    induction d as [|d IH]; intros a1 a2 Hr fuel.
+    - destruct fuel as [|f]; [exact I|]. rewrite sim_art_S.
+      cbn [rw_art] in Hr. destruct Hr as (Hsh & Hhas & Hrest).
+      split; [exact Hsh|]. split; [exact Hhas|].
+      destruct (a_isdir a1); [|exact Hrest].
+      intros Hh. destruct (Hrest Hh) as [[E1 E2]|Hf]; [|exfalso; exact Hf].
+      rewrite E1, E2. exact I.
+    - destruct fuel as [|f]; [exact I|]. rewrite sim_art_S.
+      cbn [rw_art] in Hr. destruct Hr as (Hsh & Hhas & Hrest).
+      split; [exact Hsh|]. split; [exact Hhas|].
+      destruct (a_isdir a1); [|exact Hrest].
+      intros Hh. destruct (Hrest Hh) as [[E1 E2]|Hex].
+      + rewrite E1, E2. exact I.
+      + destruct Hex as (o1 & o2 & m1 & m2 & old1 & old2 & E1 & D1 & W1 & E2 & D2 & W2 & Hp & Hk).
+        rewrite E1, E2. unfold man_rel.
+        rewrite D1, D2, (dec_enc_as old1 m1 W1), (dec_enc_as old2 m2 W2).
+        split; [exact Hp|].
+        apply (kids_rel_impl (rw_art d) (sim_art c1 c2 f)); [|exact Hk].
+        intros x y Hxy. exact (IH x y Hxy f).
+  Qed.
+End Rewrite.
+
+Print Assumptions C20_rewrite_sim.
+Print Assumptions C20_rewrite_sim_old.
+Print Assumptions C20_rw_sim.
+
+(* ------------------------------------------------------------------------------------------ *)
+(* A boolean checker for the simulation (used for the concrete instances below)                *)
+(* ------------------------------------------------------------------------------------------ *)
+
+Definition obj_eqb (o1 o2 : option cobj) : bool :=
+  match o1, o2 with
+  | None, None => true
+  | Some x, Some y => beqb (o_data x) (o_data y) && (o_mode x =? o_mode y)
+  | _, _ => false
+  end.
+
+Lemma obj_eqb_eq o1 o2 : obj_eqb o1 o2 = true -> o1 = o2.
+Proof.
+  destruct o1 as [[d1 m1]|], o2 as [[d2 m2]|]; cbn [obj_eqb o_data o_mode]; intros E;
+    try discriminate E; [|reflexivity].
+  apply andb_true_iff in E as [Ed Em]. apply beqb_eq in Ed. apply N.eqb_eq in Em. subst. reflexivity.
+Qed.
+
+Definition shapeb (a1 a2 : artifact) : bool :=
+  beqb (a_path a1) (a_path a2) && Bool.eqb (a_isdir a1) (a_isdir a2) &&
+  Bool.eqb (a_norec a1) (a_norec a2) && Bool.eqb (a_skip a1) (a_skip a2).
+
+Lemma shapeb_ok a1 a2 : shapeb a1 a2 = true -> same_shape a1 a2.
+Proof.
+  unfold shapeb, same_shape. intros E.
+  apply andb_true_iff in E as [E E4]. apply andb_true_iff in E as [E E3].
+  apply andb_true_iff in E as [E1 E2].
+  apply beqb_eq in E1. apply Bool.eqb_prop in E2. apply Bool.eqb_prop in E3. apply Bool.eqb_prop in E4.
+  repeat split; assumption.
+Qed.
+
+Fixpoint kidsb (Rb : artifact -> artifact -> bool) (l1 l2 : list (bytes * artifact)) : bool :=
+  match l1, l2 with
+  | [], [] => true
+  | (k1, x) :: r1, (k2, y) :: r2 => beqb k1 k2 && Rb x y && kidsb Rb r1 r2
+  | _, _ => false
+  end.
+
+Lemma kidsb_ok (Rb : artifact -> artifact -> bool) (R : artifact -> artifact -> Prop) :
+  (forall x y, Rb x y = true -> R x y) ->
+  forall l1 l2, kidsb Rb l1 l2 = true -> kids_rel R l1 l2.
+Proof.
+  intros HR. induction l1 as [|[k1 x] r1 IH]; intros [|[k2 y] r2] E; cbn [kidsb] in E;
+    try discriminate E; [constructor|].
+  apply andb_true_iff in E as [E E3]. apply andb_true_iff in E as [E1 E2]. apply beqb_eq in E1.
+  constructor; [split; [exact E1 | exact (HR x y E2)] | exact (IH r2 E3)].
+Qed.
+
+Section SimCheck.
+  Variables c1 c2 : cache.
+
+  Fixpoint sim_artb (fuel : nat) (a1 a2 : artifact) : bool :=
+    match fuel with
+    | O => true
+    | S f =>
+      shapeb a1 a2 && Bool.eqb (has_cs (a_cs a1)) (has_cs (a_cs a2)) &&
+      if a_isdir a1 then
+        if has_cs (a_cs a1) then
+          match cget c1 (a_cs a1), cget c2 (a_cs a2) with
+          | None, None => true
+          | Some x1, Some x2 =>
+            match dec_manifest (o_data x1), dec_manifest (o_data x2) with
+            | None, None => true
+            | Some m1, Some m2 =>
+              beqb (m_path m1) (m_path m2) && kidsb (sim_artb f) (m_contents m1) (m_contents m2)
+            | _, _ => false
+            end
+          | _, _ => false
+          end
+        else true
+      else beqb (a_cs a1) (a_cs a2) &&
+           (if has_cs (a_cs a1) then obj_eqb (cget c1 (a_cs a1)) (cget c2 (a_cs a2)) else true)
+    end.
+
+  Lemma sim_artb_ok fuel : forall a1 a2, sim_artb fuel a1 a2 = true -> sim_art c1 c2 fuel a1 a2.
+  Proof.
+    induction fuel as [|f IH]; intros a1 a2 E; [exact I|].
+    cbn [sim_artb] in E. rewrite sim_art_S.
+    apply andb_true_iff in E as [E E3]. apply andb_true_iff in E as [E1 E2].
+    split; [exact (shapeb_ok _ _ E1)|]. split; [exact (Bool.eqb_prop _ _ E2)|].
+    destruct (a_isdir a1).
+    - intros Hh. rewrite Hh in E3. unfold man_rel.
+      destruct (cget c1 (a_cs a1)) as [x1|], (cget c2 (a_cs a2)) as [x2|]; try discriminate E3; [|exact I].
+      destruct (dec_manifest (o_data x1)) as [m1|], (dec_manifest (o_data x2)) as [m2|];
+        try discriminate E3; [|exact I].
+      apply andb_true_iff in E3 as [Ep Ek]. apply beqb_eq in Ep.
+      split; [exact Ep | exact (kidsb_ok _ _ IH _ _ Ek)].
+    - apply andb_true_iff in E3 as [Ecs Ec]. apply beqb_eq in Ecs. split; [exact Ecs|].
+      intros Hh. rewrite Hh in Ec. exact (obj_eqb_eq _ _ Ec).
+  Qed.
+End SimCheck.
+
+(* ------------------------------------------------------------------------------------------ *)
+(* Non-vacuity: a concrete two-level tree                                                      *)
+(* ------------------------------------------------------------------------------------------ *)
+
+(* Re-encode the manifests below an artifact: [sel path] chooses the schema of the manifest with
+   that path.  Children first (their new keys go into the parent), objects are added to c2. *)
+Fixpoint reenc (H : bytes -> bytes) (sel : bytes -> bool) (fuel : nat) (a : artifact) (c1 c2 : cache)
+  : option (artifact * cache) :=
+  match fuel with
+  | O => None
+  | S f =>
+    if a_isdir a then
+      match cget c1 (a_cs a) with
+      | None => Some (a, c2)
+      | Some o =>
+        match dec_manifest (o_data o) with
+        | None => None
+        | Some m =>
+          match (fix go (kids : list (bytes * artifact)) (c2 : cache)
+                   : option (list (bytes * artifact) * cache) :=
+                   match kids with
+                   | [] => Some ([], c2)
+                   | (k, ch) :: r =>
+                     match reenc H sel f ch c1 c2 with
+                     | None => None
+                     | Some (ch', c2') =>
+                       match go r c2' with
+                       | None => None
+                       | Some (l, c2'') => Some ((k, ch') :: l, c2'')
+                       end
+                     end
+                   end) (m_contents m) c2 with
+          | None => None
+          | Some (l, c2') =>
+            let b := enc_as (sel (m_path m)) (mkMan (m_path m) l) in
+            Some (set_cs a (H b), cput c2' (H b) b)
+          end
+        end
+      end
+    else Some (a, c2)
+  end.
+
+(* the file objects of a cache *)
+Definition file_objects (c : cache) : cache :=
+  filter (fun kv => match dec_manifest (o_data (snd kv)) with Some _ => false | None => true end) c.
+
+Definition Ht : bytes -> bytes := fun b => 1 :: 2 :: 3 :: b.
+Definition ex_sub : bytes := [115; 117; 98].
+Definition ex_tree : node := Dir [([97], File [104; 105]); (ex_sub, Dir [([98], File [120])])].
+Definition ex_art0 : artifact := mkArt [] [100] true false false.
+
+(* the committed state: cache ex_c1, artifact ex_a1, workspace ex_ws (links, strategy Link) *)
+Definition ex_committed := commit_node Ht ex_art0 ex_tree [] Link.
+Definition ex_ws : node := match ex_committed with Ok (n, _, _) => n | Err => Other end.
+Definition ex_c1 : cache := match ex_committed with Ok (_, c, _) => c | Err => [] end.
+Definition ex_a1 : artifact := match ex_committed with Ok (_, _, a) => a | Err => ex_art0 end.
+
+Example ex_commit_ok :
+  ex_ws = Dir [([97], LinkC (Ht [104; 105])); (ex_sub, Dir [([98], LinkC (Ht [120]))])] /\
+  length ex_c1 = 4%nat /\ has_cs (a_cs ex_a1) = true.
+Proof. vm_compute. repeat split. Qed.
+
+(* (i) only the ROOT manifest re-encoded with enc_manifest_old, stored under its own key in a
+   second cache that has the file objects and the (unchanged) manifest of sub *)
+Definition ex_root_man : manifest :=
+  match cget ex_c1 (a_cs ex_a1) with
+  | Some o => match dec_manifest (o_data o) with Some m => m | None => mkMan [] [] end
+  | None => mkMan [] []
+  end.
+Definition ex_root_old : bytes := enc_manifest_old ex_root_man.
+Definition ex_c2 : cache :=
+  cput (filter (fun kv => negb (beqb (fst kv) (a_cs ex_a1))) ex_c1) (Ht ex_root_old) ex_root_old.
+Definition ex_a2 : artifact := set_cs ex_a1 (Ht ex_root_old).
+
+Example ex_root_old_text :
+  ex_root_old =
+  of_string "{""Path"":""d"",""Contents"":{""a"":{""Checksum"":""\u0001\u0002\u0003hi"",""Path"":""a"",""IsDir"":false,""DisableRecursion"":false,""SkipCache"":false},""sub"":{""Checksum"":"%string
+  ++ jstr (a_cs (match alookup ex_sub (m_contents ex_root_man) with Some x => x | None => ex_art0 end))
+  ++ of_string ",""Path"":""sub"",""IsDir"":true,""DisableRecursion"":false,""SkipCache"":false}}}"%string ++ [10].
+Proof. vm_compute. reflexivity. Qed.
+
+Example ex_keys_differ :
+  beqb (a_cs ex_a1) (a_cs ex_a2) = false /\ cget ex_c2 (a_cs ex_a1) = None /\ cget ex_c1 (a_cs ex_a2) = None.
+Proof. vm_compute. repeat split. Qed.
+
+Example ex_sim : sim_art ex_c1 ex_c2 3 ex_a1 ex_a2.
+Proof. apply sim_artb_ok. vm_compute. reflexivity. Qed.
+
+Example ex_checkout_same :
+  checkout_node Ht 3 ex_a1 None ex_c1 Link = Ok (Some ex_ws) /\
+  checkout_node Ht 3 ex_a2 None ex_c2 Link = Ok (Some ex_ws) /\
+  checkout_node Ht 3 ex_a1 None ex_c1 Copy = Ok (Some ex_tree) /\
+  checkout_node Ht 3 ex_a2 None ex_c2 Copy = Ok (Some ex_tree).
+Proof. vm_compute. repeat split. Qed.
+
+(* the theorems apply to the instance *)
+Example ex_status_same :
+  status_short Ht 3 ex_a1 (Some ex_ws) ex_c1 = Ok true /\
+  status_short Ht 3 ex_a2 (Some ex_ws) ex_c2 = Ok true /\
+  status_short Ht 3 ex_a1 (Some ex_tree) ex_c1 = status_short Ht 3 ex_a2 (Some ex_tree) ex_c2.
+Proof.
+  split; [vm_compute; reflexivity|]. split; [vm_compute; reflexivity|].
+  apply C20_status_short_equal. exact ex_sim.
+Qed.
+
+Example ex_expand_same :
+  expand 3 ex_a1 ex_c1 = Some ex_tree /\ expand 3 ex_a2 ex_c2 = Some ex_tree.
+Proof. vm_compute. repeat split. Qed.
+
+Example ex_gather_same :
+  gather 3 ex_a1 ex_c1 = Ok ([Ht [104; 105]; Ht [120]], 2%nat) /\
+  gather 3 ex_a2 ex_c2 = Ok ([Ht [104; 105]; Ht [120]], 2%nat).
+Proof. vm_compute. repeat split. Qed.
+
+(* (ii) the manifests of ANY SUBSET of the directories re-encoded: all four choices for the two
+   directories d and sub; the caches share only the file objects *)
+Definition ex_sel (root sub : bool) (p : bytes) : bool := if beqb p ex_sub then sub else root.
+Definition ex_re (root sub : bool) : artifact * cache :=
+  match reenc Ht (ex_sel root sub) 3 ex_a1 ex_c1 (file_objects ex_c1) with
+  | Some r => r
+  | None => (ex_art0, [])
+  end.
+
+Example ex_subsets :
+  forallb (fun rs : bool * bool =>
+    let (a2, c2) := ex_re (fst rs) (snd rs) in
+    sim_artb ex_c1 c2 3 ex_a1 a2 &&
+    (length c2 =? 4)%nat &&
+    (* a manifest in the old schema, or above one, has a different key *)
+    Bool.eqb (beqb (a_cs a2) (a_cs ex_a1)) (negb (fst rs || snd rs)))
+    [(false, false); (true, false); (false, true); (true, true)] = true.
+Proof. vm_compute. reflexivity. Qed.
+
+Example ex_subsets_checkout :
+  forallb (fun rs : bool * bool =>
+    let (a2, c2) := ex_re (fst rs) (snd rs) in
+    match checkout_node Ht 3 a2 None c2 Copy, checkout_node Ht 3 a2 None c2 Link with
+    | Ok (Some t), Ok (Some w) => node_eqb t ex_tree && node_eqb w ex_ws
+    | _, _ => false
+    end)
+    [(false, false); (true, false); (false, true); (true, true)] = true.
+Proof. vm_compute. reflexivity. Qed.
